@@ -3,7 +3,7 @@
 use crate::json::{esc, s};
 use rustc_hir as hir;
 use rustc_hir::{Expr, ExprKind, LoopSource, MatchSource, PatKind, QPath, StmtKind};
-use rustc_middle::ty::print::{with_crate_prefix, with_no_trimmed_paths};
+use rustc_middle::ty::print::{with_crate_prefix, with_no_trimmed_paths, with_no_visible_paths};
 use rustc_middle::ty::{Ty, TyCtxt, TypeckResults};
 use rustc_span::Span;
 
@@ -13,11 +13,15 @@ pub struct D<'tcx> {
     pub out: String,
 }
 
+pub fn with_full<R>(f: impl FnOnce() -> R) -> R {
+    with_no_trimmed_paths!(with_no_visible_paths!(with_crate_prefix!(f())))
+}
+
 pub fn dpath<'tcx>(tcx: TyCtxt<'tcx>, did: rustc_hir::def_id::DefId) -> String {
-    with_no_trimmed_paths!(with_crate_prefix!(tcx.def_path_str(did)))
+    with_full(|| tcx.def_path_str(did))
 }
 pub fn tystr<'tcx>(t: Ty<'tcx>) -> String {
-    with_no_trimmed_paths!(with_crate_prefix!(format!("{}", t)))
+    with_full(|| format!("{}", t))
 }
 
 impl<'tcx> D<'tcx> {
@@ -69,7 +73,7 @@ impl<'tcx> D<'tcx> {
                             self.p(",");
                         }
                         first = false;
-                        let st = with_no_trimmed_paths!(with_crate_prefix!(format!("{}", a)));
+                        let st = with_full(|| format!("{}", a));
                         self.ps(&st);
                     }
                 }
@@ -427,7 +431,7 @@ impl<'tcx> D<'tcx> {
                     if i > 0 {
                         self.p(",");
                     }
-                    let st = with_no_trimmed_paths!(with_crate_prefix!(format!("{}", a)));
+                    let st = with_full(|| format!("{}", a));
                     self.ps(&st);
                 }
                 self.p("],");
